@@ -100,8 +100,10 @@ struct SchedBuf : public std::streambuf
 // workloads (each thread: create, set parameters, load, solve, query, destroy its own object)
 // ---------------------------------------------------------------------------------------------------------
 static Rational rq(long a, long b) { return Rational(a) / b; }
-static void load_third_lp(SoPlex& spx, int variant)
+static void load_third_lp(SoPlex& spx, int variant, bool badlyScaled = false)
 {
+   // badlyScaled: row 2 times 10^4 and column 2 times 10^-3, so that the geometric / least-squares scalers really iterate (their early exit is a max/min ratio below 10^3)
+   Rational rowf = badlyScaled ? Rational(10000) : Rational(1), colf = badlyScaled ? rq(1, 1000) : Rational(1);
    // 3x3 LP with non-dyadic data; variant shifts the data a little so that different threads do different work
    Rational inf = spx.realParam(SoPlex::INFTY);
    DSVectorRational e(0);
@@ -110,15 +112,15 @@ static void load_third_lp(SoPlex& spx, int variant)
    spx.addColRational(LPColRational(rq(1, 7) + variant, e, inf, Rational(0)));
    spx.addColRational(LPColRational(Rational(1), e, rq(10, 3), Rational(0)));
    DSVectorRational r1(3), r2(3), r3(3);
-   r1.add(0, rq(1, 3)); r1.add(1, Rational(1)); r1.add(2, rq(1, 7));
-   r2.add(0, Rational(1)); r2.add(1, rq(1, 7)); r2.add(2, rq(2, 3));
-   r3.add(0, rq(1, 7)); r3.add(1, rq(1, 3)); r3.add(2, Rational(1));
+   r1.add(0, rq(1, 3)); r1.add(1, Rational(1)); r1.add(2, Rational(rq(1, 7) * colf));
+   r2.add(0, rowf); r2.add(1, Rational(rq(1, 7) * rowf)); r2.add(2, Rational(rq(2, 3) * rowf * colf));
+   r3.add(0, rq(1, 7)); r3.add(1, rq(1, 3)); r3.add(2, colf);
    spx.addRowRational(LPRowRational(-inf, r1, rq(7, 3) + variant));
-   spx.addRowRational(LPRowRational(-inf, r2, rq(5, 7)));
+   spx.addRowRational(LPRowRational(-inf, r2, Rational(rq(5, 7) * rowf)));
    spx.addRowRational(LPRowRational(-inf, r3, rq(11, 13)));
 }
-static const char* WNAME[] = {"exact-pure-boosting", "construct-destroy-only", "exact-default", "float-default", "float-geo8-steep-nopresolve", "float-leastsq-devex", "exact-boosting-variant"};
-static const int NW = 7;
+static const char* WNAME[] = {"exact-pure-boosting", "construct-destroy-only", "exact-default", "float-default", "float-geo8-steep-nopresolve", "float-leastsq-devex", "exact-boosting-variant", "float-geo1-variant"};
+static const int NW = 8;
 
 static std::string run_workload(int w, std::ostream* log)
 {
@@ -126,7 +128,8 @@ static std::string run_workload(int w, std::ostream* log)
    sched_point("api:create");
    SoPlex* spx = new SoPlex();
    if(w == 1) { sched_point("api:destroy"); delete spx; return "constructed"; }
-   spx->setIntParam(SoPlex::VERBOSITY, log ? SoPlex::VERBOSITY_HIGH : SoPlex::VERBOSITY_ERROR);
+   // the two geometric-scaler workloads log at full verbosity: every scaling round prints a line, i.e. is a scheduling point inside SPxGeometSC::scale()
+   spx->setIntParam(SoPlex::VERBOSITY, log ? ((w == 4 || w == 7) ? SoPlex::VERBOSITY_FULL : SoPlex::VERBOSITY_HIGH) : SoPlex::VERBOSITY_ERROR);
    if(log) for(int v = 0; v <= 5; ++v) spx->spxout.setStream((SPxOut::Verbosity)v, *log);
    sched_point("api:params");
    bool exact = (w == 0 || w == 2 || w == 6);
@@ -150,9 +153,10 @@ static std::string run_workload(int w, std::ostream* log)
       spx->setIntParam(SoPlex::SYNCMODE, SoPlex::SYNCMODE_AUTO);
       if(w == 4) { spx->setIntParam(SoPlex::SCALER, SoPlex::SCALER_GEO8); spx->setIntParam(SoPlex::PRICER, SoPlex::PRICER_STEEP); spx->setIntParam(SoPlex::SIMPLIFIER, SoPlex::SIMPLIFIER_OFF); }
       if(w == 5) { spx->setIntParam(SoPlex::SCALER, SoPlex::SCALER_LEASTSQ); spx->setIntParam(SoPlex::PRICER, SoPlex::PRICER_DEVEX); }
+      if(w == 7) { spx->setIntParam(SoPlex::SCALER, SoPlex::SCALER_GEO1); spx->setIntParam(SoPlex::SIMPLIFIER, SoPlex::SIMPLIFIER_OFF); }
    }
    sched_point("api:load");
-   load_third_lp(*spx, w == 6 ? 1 : 0);
+   load_third_lp(*spx, (w == 6 || w == 7) ? 1 : 0, w == 4 || w == 5 || w == 7);
    sched_point("api:optimize");
    spx->optimize();
    sched_point("api:query");
@@ -400,7 +404,7 @@ int main(int argc, char** argv)
    rep.phase("free-running workloads under ThreadSanitizer", 1, [&](uint64_t, int, Ctx & c) -> uint64_t
    {
       int reps = thorough ? 20 : 6;
-      std::vector<std::vector<int>> mixes = {{0, 1}, {0, 0}, {0, 6, 2, 3}, {3, 4, 5, 3}, {0, 1, 2, 3, 4, 5, 6, 0, 1, 2, 3, 4, 5, 6, 0, 1}};
+      std::vector<std::vector<int>> mixes = {{0, 1}, {0, 0}, {0, 6, 2, 3}, {3, 4, 5, 3}, {4, 7, 4, 7}, {0, 1, 2, 3, 4, 5, 6, 7, 0, 1, 2, 3, 4, 5, 6, 7}};
       for(auto& mix : mixes)
          for(int r = 0; r < reps; ++r)
          {
@@ -431,6 +435,7 @@ int main(int argc, char** argv)
    jobs.push_back({{2, 3}, 1, 200000});        // exact default vs floating point
    jobs.push_back({{3, 4}, thorough ? 2 : 1, 200000});   // two floating-point solves (different scaler / pricer / simplifier)
    jobs.push_back({{5, 0}, 1, 200000});
+   jobs.push_back({{4, 7}, thorough ? 2 : 1, 200000});   // two geometric scalers at work at the same time
    if(thorough) { jobs.push_back({{0, 1, 6}, 1, 200000}); jobs.push_back({{0, 1}, 3, 400000}); }
    double perJob = (rep.deadline - now_s() - 20) / jobs.size();
    rep.phase("all schedules within the preemption bound", jobs.size(), [&](uint64_t idx, int, Ctx & c) -> uint64_t
